@@ -278,6 +278,27 @@ func TestC06(t *testing.T) {
 				t.Errorf("violation (replay %s): %v", p, err)
 			}
 		}
+		// other clients of the same process exchanging keys at the same moment: four runs with fifteen companions each, whatever
+		// the generated part draws (the overlap is a matter of microseconds: the more attempts the better)
+		for k := 0; k < 4; k++ {
+			idx++
+			if idx%nsh != run.Shard {
+				continue
+			}
+			sc, err := scen.BuildHandshake(&detSource{seed: run.Seed*977 + uint64(idx)}, keys, scen.Corner{}, false)
+			if err != nil {
+				t.Fatalf("INFRA: %v", err)
+			}
+			sc.Companions, sc.HS.P, sc.HS.Q = 15, 1000003, 1000033
+			n++
+			if err := evaluate(sc, scen.Corner{}); err != nil {
+				if strings.HasPrefix(err.Error(), "INFRA:") {
+					t.Fatalf("%v", err)
+				}
+				p := run.ViolationNamed(fmt.Sprintf("companions-%d", k), sc, err.Error())
+				t.Errorf("violation (replay %s): %v", p, err)
+			}
+		}
 		// every key of the pool once: public exponents of one to four bytes (3, 17, 257, 49153, 65537, 2^24+43, 2^31-1)
 		for ki := range keys {
 			idx++
